@@ -62,6 +62,8 @@ def balanced_sym(p):
         return ssum(terms)
 
     if form == "pixels":
+        if "balanced" not in list(out.columns):
+            prove(False, f"pixel output has no 'balanced' column (columns {list(out.columns)})")
         R, C, V, Bal = (list(out[k].values) for k in ("bin1_id", "bin2_id", "count", "balanced"))
         conds = []
         for t in range(len(R)):
@@ -127,6 +129,8 @@ def balanced_real(p, inputs):
         return (math.isnan(a) and math.isnan(b)) or (not math.isnan(a) and not math.isnan(b) and abs(a - b) <= 1e-9 * max(1, abs(a), abs(b)))
 
     if form == "pixels":
+        if "balanced" not in out.columns:
+            raise OracleFailure(f"pixel output has no 'balanced' column (columns {list(out.columns)})")
         for r, c, x, bal in zip(out["bin1_id"], out["bin2_id"], out["count"], out["balanced"]):
             if not same(float(bal), float(fw[r] * fw[c] * x)):
                 raise OracleFailure(f"pixel ({r},{c}): balanced {bal} != count * weights {fw[r] * fw[c] * x}")
